@@ -66,21 +66,49 @@ def tsd_history(writer):
     return out
 
 
-def gen_tsd_writer(rng, wid, end, pool=5, allow_same_cycle_readd=False, magic=None, big=False, mid=False):
+def gen_tsd_writer(rng, wid, end, pool=5, allow_same_cycle_readd=False, magic=None, big=False, mid=False, huge=False):
     """TSD<Int,TS<Int>> writer with key histories: add, update, remove, re-add in a later cycle, many keys per cycle"""
     st = {}
     script = {}
     t = rng.choice((0, 0, 1))
     n_cycles = rng.randint(3, 10)
+    if huge:
+        # more than 64 (128) live entries at once: a second bitmap word / a third tree level in everything that indexes slots;
+        # built in one to three cycles, later shrunk back to a handful (capacity is kept) and updated again
+        big = True
+        target = rng.choice((65, 66, 70, 100, 129, 140))
+        keys = rng.sample(range(1, 161), target)
+        parts = rng.choice((1, 1, 2, 3))
+        for i in range(parts):
+            if t >= end:
+                break
+            chunk = keys[i * target // parts:(i + 1) * target // parts]
+            mod = {str(k): rng.randint(0, 99) for k in chunk}
+            for k, v in mod.items():
+                st[int(k)] = v
+            script[t] = [["d", coll.jd({"removed": [], "modified": mod})]]
+            t += 1
+    shrunk = False
     for _ in range(n_cycles):
         if t >= end:
             break
         removed, modified = [], {}
         n_ops = rng.choice((1, 1, 2, 3, 5)) if not big else rng.choice((3, 8, 20))
+        if huge and not shrunk and rng.random() < 0.3 and len(st) > 8:
+            keep = set(rng.sample(sorted(st), rng.choice((1, 2, 4, 6))))
+            rem = [k for k in st if k not in keep]
+            for k in rem:
+                st.pop(k)
+            script[t] = [["d", coll.jd({"removed": rem, "modified": {}})]]
+            t += rng.choice((1, 1, 2))
+            shrunk = True
+            pool = max(keep) + 3
+            big = False
+            continue
         if mid:
             n_ops = rng.choice((2, 4, 6, 9))        # key pools of 9-20: the live count hovers around the 8 / 16 boundaries, removals are frequent
         for _ in range(n_ops):
-            k = rng.randint(1, pool if not big else 80)
+            k = rng.randint(1, pool if not big else (160 if huge else 80))
             if k in st and k not in modified and k not in removed and rng.random() < (0.45 if mid else 0.3):
                 removed.append(k)
             elif k not in removed:
@@ -96,6 +124,44 @@ def gen_tsd_writer(rng, wid, end, pool=5, allow_same_cycle_readd=False, magic=No
             st[int(k)] = v
         script[t] = [["d", coll.jd({"removed": removed, "modified": modified})]]
         t += rng.choice((1, 1, 1, 2, 3))
+    return dict(id=wid, shape="TSD", script=script)
+
+
+def gen_tsd_subset_writer(rng, wid, end, base):
+    """a second TSD<Int,TS<Int>> whose key set is, in every cycle, a subset of the key set of writer `base`: keys join and
+    leave it while they stay in the base dictionary (membership changes that do not tick the union key set), and leave it
+    with the base key at the latest"""
+    hist = tsd_history(base)
+    st = {}
+    script = {}
+    cur1 = {}
+    for t in range(end):
+        if t in hist:
+            cur1 = hist[t]["state"]
+        removed = [k for k in st if k not in cur1]
+        modified = {}
+        if rng.random() < 0.6:
+            for _ in range(rng.choice((1, 1, 2, 3))):
+                if not cur1:
+                    break
+                k = rng.choice(sorted(cur1))
+                if k in removed:
+                    continue
+                if k in st and str(k) not in modified and rng.random() < 0.35:
+                    removed.append(k)
+                elif k not in removed:
+                    modified[str(k)] = rng.randint(0, 99)
+        if removed or modified:
+            for k in removed:
+                st.pop(k, None)
+            for k, v in modified.items():
+                st[int(k)] = v
+            script[t] = [["d", coll.jd({"removed": removed, "modified": modified})]]
+    if not script:
+        for t in sorted(hist):
+            if hist[t]["state"]:
+                script[t] = [["d", coll.jd({"removed": [], "modified": {str(sorted(hist[t]["state"])[0]): 5}})]]
+                break
     return dict(id=wid, shape="TSD", script=script)
 
 
@@ -195,6 +261,21 @@ class FnModel:
         elif f == "Add2":
             if (x_tick is not None or b_tick is not None) and self.x is not None and self.b is not None:
                 self.out = self.x + self.b
+                ticked = True
+        elif f == "TickAdd2":
+            # TickAfter on x (10 * latest x two steps after each x tick) feeding Add2 with b; x is valid whenever the key
+            # exists (the generator keeps the second dictionary's keys a subset of the first's)
+            due = t in self.due
+            self.due = {d for d in self.due if d > t}
+            y_tick = None
+            if due:
+                self.y = self.last * 10
+                y_tick = self.y
+            if x_tick is not None:
+                self.last = x_tick
+                self.due.add(t + 2)
+            if (y_tick is not None or b_tick is not None) and getattr(self, "y", None) is not None and self.b is not None:
+                self.out = self.y + self.b
                 ticked = True
         elif f == "ConstSource":
             if first:
